@@ -502,7 +502,18 @@ def execute(case, keep_text=False):
             return
         s = ref['served'][mol]
         T, P = interior_point(s['tab'], u, v)
-        got = np.asarray(obj.opacity(T, P), dtype=float)
+        if held:
+            # what an earlier request returned must not change under the
+            # caller's feet when the cache is used again
+            a_obj, a_copy, what = held.pop()
+            if not np.array_equal(np.asarray(a_obj, dtype=float), a_copy,
+                                  equal_nan=True):
+                viol('result-overwritten', 'xsec', 'the array returned for %s '
+                     'changed after a later request' % what, step)
+                raise Stop()
+        raw = obj.opacity(T, P)
+        got = np.asarray(raw, dtype=float)
+        held.append((raw, np.array(got, copy=True), mol))
         mode = s.get('mode', ref['interp'])
         want = ref_interp(s['tab'], mode, T, P)
         other = ref_interp(s['tab'], 'exp' if mode == 'linear'
@@ -521,6 +532,8 @@ def execute(case, keep_text=False):
             raise Stop()
         out.bump('steps', 'probes')
         log.add('cache', 'probe', [mol, T, P, got])
+
+    held = []
 
     def clear_served():
         if ref['served']:
